@@ -13,6 +13,17 @@ from . import preproc
 from .rate import get_rater
 
 
+def _training_sets_differ(ts1, ts2):
+    """Compare two training sets (label, path, or tuple of arrays)"""
+    if isinstance(ts1, tuple) or isinstance(ts2, tuple):
+        if not (isinstance(ts1, tuple) and isinstance(ts2, tuple)
+                and len(ts1) == len(ts2)):
+            return True
+        # `!=` would compare the arrays element-wise
+        return not all(np.array_equal(a1, a2) for a1, a2 in zip(ts1, ts2))
+    return ts1 != ts2
+
+
 class Indentation(afmformats.AFMForceDistance):
     def __init__(self, data, metadata, diskcache=None):
         """Additional functionalities for afmformats.AFMForceDistance"""
@@ -373,7 +384,7 @@ class Indentation(afmformats.AFMForceDistance):
         elif (self._rating is None or
               self._rating[0] != curhash or
               self._rating[1] != regressor or
-              self._rating[2] != training_set or
+              _training_sets_differ(self._rating[2], training_set) or
               self._rating[3] != names or
               self._rating[4] != lda):
             # Perform rating
